@@ -171,6 +171,44 @@ def _filter_one(args):
     return dict(violations=out, counts=counts, outcome=str((fk, len(got), len(expected))))
 
 
+LK_OPTIONS = (None, {}, {"inplay": False}, {"inplay": True}, {"max_inplay_seconds": 0}, {"max_inplay_seconds": 2}, {"seconds_to_start": 5}, {"inplay": False, "seconds_to_start": 5})
+
+
+def _seen_with(seq, lks):
+    spec = simx.MarketSpec(book0=L.BOOK0, market_time_offset_s=10)
+    ticks = [[dt, L.EVENTS[e] if isinstance(e, str) else e] for dt, e in seq]
+    strategies = [dict(script={}, name="F%d" % k, listener_kwargs=lk) if lk is not None else dict(script={}, name="F%d" % k) for k, lk in enumerate(lks)]
+    w = simx.SimWorld([(spec, ticks)], strategies)
+    w.run()
+    return w, [[p - spec.t0 for (m, p) in st.seen] for st in w.strategies]
+
+
+def _filter_pair(args):
+    """two strategies on the same market file with their own listener filters, in both registration orders: each
+    receives exactly what it receives alone (a stream is shared only by strategies with the same filters)"""
+    seq, ia, ib = args
+    out = []
+    counts = {"clause:C14.a": 0, "filter_pairs": 0, "filter_pairs_differing": 0}
+    la, lb = LK_OPTIONS[ia], LK_OPTIONS[ib]
+    case = dict(pair_seq=[list(x) for x in seq], lk=[ia, ib])
+    w0, (solo_a,) = _seen_with(seq, [la])
+    w1, (solo_b,) = _seen_with(seq, [lb])
+    w, (got_a, got_b) = _seen_with(seq, [la, lb])
+    counts["clause:C14.a"] += 1
+    counts["filter_pairs"] += 1
+    if solo_a != solo_b:
+        counts["filter_pairs_differing"] += 1
+    for x in (w0, w1, w):
+        if x.run_exception is not None:
+            out.append(core.v("C14.a", (False, "pair", "exception"), "run raised %r" % (x.run_exception,), case))
+            return dict(violations=out, counts=counts, outcome=None)
+    for who, got, solo, lk in (("first", got_a, solo_a, la), ("second", got_b, solo_b, lb)):
+        if got != solo:
+            pred = "missing" if len(got) < len(solo) else ("extra" if len(got) > len(solo) else "different")
+            out.append(core.v("C14.a", (False, "pair", pred), "strategy registered %s with filters %s next to one with %s: delivered offsets %s, alone %s" % (who, lk, lb if who == "first" else la, got, solo), case))
+    return dict(violations=out, counts=counts, outcome=str((ia, ib, len(got_a), len(got_b))))
+
+
 def _restore_one(args):
     """d) a strategy raises at update k with raise_errors=True: run() propagates, the clock must be restored."""
     k, = args
@@ -334,6 +372,13 @@ def run(tier):
             for s2s in (None, 5, 1):
                 for mis in (None, 0, 2, 6):
                     fj.append((seq, inplay, s2s, mis))
+    pj = [(seq, ia, ib) for seq in seqs[:2] for ia in range(len(LK_OPTIONS)) for ib in range(len(LK_OPTIONS))]
+    for r in core.pmap(_filter_pair, pj):
+        rep.add_violations(r["violations"])
+        rep.merge_counts(r["counts"])
+        if r["outcome"]:
+            rep.outcomes.add(r["outcome"])
+    rep.need("filter_pairs_differing")
     for r in core.pmap(_filter_one, fj):
         rep.add_violations(r["violations"])
         rep.merge_counts(r["counts"])
@@ -368,6 +413,8 @@ def replay(rep):
     c = rep["case"]
     if "dtvecs" in c:
         r = _merge_one((tuple(tuple(d) for d in c["dtvecs"]), tuple(c["events"]), c["groups"], c["event_processing"], tuple(c.get("starts") or range(len(c["dtvecs"])))))
+    elif "pair_seq" in c:
+        r = _filter_pair(([tuple(x) for x in c["pair_seq"]], c["lk"][0], c["lk"][1]))
     elif "seq" in c:
         r = _filter_one(([tuple(x) for x in c["seq"]], c["inplay"], c["seconds_to_start"], c["max_inplay_seconds"]))
     elif "raise_at" in c:
